@@ -596,9 +596,7 @@ func FuzzParse(f *testing.F) {
 		f.Add(s)
 	}
 	f.Fuzz(func(t *testing.T, s string) {
-		v := &vt.V{}
-		runString(StrScript{s}, v)
-		if v.Failed() {
+		if v := vt.RunOne(propString, StrScript{s}); v.Failed() {
 			t.Fatalf("%s", v.Failure())
 		}
 	})
